@@ -37,12 +37,25 @@ RULE = ("HDDDM with 1-4 features (Hellinger or a user divergence) and CDBD with 
         "After (up to two) drifts per history a new detector is started on the drifted batch and compared with the running one on the later "
         "batches (state, counters, distance, epsilon, threshold, reference, feature_epsilons from the second batch of the epoch, feature_info on drift). "
         "Non-trivial: at least one drift and at least one update after it; distinct by content."
-        " Also: for DataFrame cases with >= 2 features a batch with the columns in another order must be refused (probed after the run).")
+        " Also: for DataFrame cases with >= 2 features a batch with the columns in another order must be refused (probed after the run)."
+        " Mixed numeric dtypes (48 quick / 480 thorough histories, pattern x detect_batch {1,2,3} x HDDDM / CDBD enumerated, ndarray or DataFrame, 1-3 "
+        "features, stdev 2 / 3 / 50 or tstat .01 / .05, 6-9 batches of 8-64 rows, optional late level shift and mid-run set_reference in a narrow "
+        "dtype): the caller holds each batch in its own dtype - int64 / int32 / float32 reference followed by float64 batches, int64 reference "
+        "followed by any of int64 / int32 / float32 / float64, int32 -> int64 -> float64, float64 reference followed by narrow batches, DataFrame "
+        "reference with a different dtype per column, all-integer histories; every value is exactly representable in its dtype, and specification "
+        "and model receive the caller's values as doubles (what the pooled reference holds after concatenation upcasts). float64 values are whole "
+        "numbers, halves, generic fractions and whole numbers -/+ a relative 2^-30 on ranges whose ends are whole numbers (positive and negative), "
+        "so that truncation to an integer or rounding to single precision moves them across bin edges (counted: reached.appends_of_a_wider_dtype..., "
+        "updates_on_a_reference_widened_in_the_epoch, of_these_with_truncation_changing_a_histogram). float32 is used only where the code computes in "
+        "doubles: never for both operands of one histogram (not on consecutive calls, not for a reference that detect_batch=1 splits; int32 takes its "
+        "place there) - np.histogram on two float32 operands builds float32 edges, outside the model's arithmetic.")
 SHARD = 6
 
 RUN = {"drifts": 0, "updates": 0, "exact_ties_eps_eq_beta": 0, "near_ties_1e-12": 0, "pow_exceptions": 0, "proxy_batches": 0,
        "degenerate_ranges": 0, "rejected_set_reference": 0, "bootstrap_estimates_validated": 0, "thresholds": 0,
-       "side_identity": 0, "side_symmetry": 0, "side_symmetry_bit_exact": 0, "twin_rows_compared": 0}
+       "side_identity": 0, "side_symmetry": 0, "side_symmetry_bit_exact": 0, "twin_rows_compared": 0,
+       "appends_of_a_wider_dtype_than_the_reference": 0, "updates_on_a_reference_widened_in_the_epoch": 0,
+       "of_these_with_truncation_changing_a_histogram": 0}
 getcontext().prec = 60
 SQRT2 = math.sqrt(2.0)
 SQRTLN2 = math.sqrt(math.log(2.0))
@@ -94,11 +107,39 @@ def make(case, detect_batch=None):
                statistic=p["statistic"], significance=p["significance"], subsets=p["subsets"])
 
 
-def container(case, rows):
+def dtype_of(case, bi):
+    """numeric dtype in which the caller holds input batch bi: a name, or (DataFrames only) one name per column"""
+    dts = case.get("dtypes")
+    return "float64" if not dts else dts[bi]
+
+
+def held_dtype(dt):
+    """dtype of the values the library reads out of the caller's container (DataFrame.values takes the common type of the columns)"""
+    return np.result_type(*dt) if isinstance(dt, list) else np.dtype(dt)
+
+
+def container(case, rows, dt="float64"):
+    """the caller's batch.  case["batches"] holds the values as doubles, each exactly representable in its batch's dtype: the
+    specification and the model see precisely the numbers the caller passed"""
     a = np.array(rows, dtype=float).reshape(len(rows), case["k"])
-    if case.get("container") == "df":
-        return pd.DataFrame(a, columns=[f"c{j}" for j in range(case["k"])])
-    return a
+    cols = [f"c{j}" for j in range(case["k"])]
+    if isinstance(dt, list) and case.get("container") != "df":
+        dt = str(held_dtype(dt))
+    if isinstance(dt, list):
+        X = pd.DataFrame({c: a[:, j].astype(d) for j, (c, d) in enumerate(zip(cols, dt))}, columns=cols)
+        back = X.to_numpy(dtype=float)
+    else:
+        X = a.astype(dt) if dt != "float64" else a
+        back = X.astype(float)
+        if case.get("container") == "df":
+            X = pd.DataFrame(X, columns=cols)
+    if not np.array_equal(back, a):
+        raise AssertionError(f"generated values are not representable in {dt}")
+    return X
+
+
+def batch(case, bi):
+    return container(case, case["batches"][bi], dtype_of(case, bi))
 
 
 @contextlib.contextmanager
@@ -186,13 +227,13 @@ def twins(case, rows, limit=2):
             continue
         t = make(case)
         np.random.seed(seed_of(case, i))
-        t.set_reference(container(case, case["batches"][ops[i][1]]))
+        t.set_reference(batch(case, ops[i][1]))
         trows = []
         for j in range(i + 1, len(ops)):
             if ops[j][0] != 0:
                 break
             np.random.seed(seed_of(case, j))
-            t.update(container(case, case["batches"][ops[j][1]]))
+            t.update(batch(case, ops[j][1]))
             r = snap(t)
             trows.append(r)
             if r["ds"] == "drift" or rows[j]["ds"] == "drift":
@@ -261,7 +302,7 @@ def run_impl(case):
             np.random.seed(seed_of(case, i))
             c0, t0 = len(calls), len(tlog)
             tot0 = int(det.total_batches)
-            X = container(case, case["batches"][bi])
+            X = batch(case, bi)
             err = None
             try:
                 if kind == 1:
@@ -282,7 +323,7 @@ def run_impl(case):
     # a DataFrame batch whose columns are the reference's in another order: it must not be compared feature-by-position
     # (the detector refuses it); probed after the run so that the history above is unaffected
     if case.get("container") == "df" and k >= 2 and rows and rows[-1]["err"] is None:
-        X = container(case, case["batches"][case["ops"][-1][1]])
+        X = batch(case, case["ops"][-1][1])
         Xp = X[list(X.columns[1:]) + [X.columns[0]]]
         before = snap(det)
         try:
@@ -416,11 +457,19 @@ def direct_check(case, obs):
     distances, epsv, thr = {}, {}, {}
     feps = None; finfo = None; cur = None; beta_attr = None
     segs = []
+    # dtype bookkeeping (coverage counters only: the specification itself works on the caller's values as doubles)
+    ref_dt = None; narrowed = None; narrow_dt = None
 
     def core(X, xi, cobs, row, step, proxy):
         """one pass of update() proper; cobs = the logged divergence calls of this pass"""
-        nonlocal ref, ref_n, bins, eps, prev, prev_fd, total, since, ds, lam, feps, finfo, cur, beta_attr, segs
+        nonlocal ref, ref_n, bins, eps, prev, prev_fd, total, since, ds, lam, feps, finfo, cur, beta_attr, segs, ref_dt, narrowed, narrow_dt
         total += 1; since += 1
+        xdt = ref_dt if proxy else held_dtype(dtype_of(case, xi[0]))
+        if narrowed is not None:
+            # what the reference would hold had the appended batches been kept in the reference's earlier, narrower dtype
+            RUN["updates_on_a_reference_widened_in_the_epoch"] += 1
+            if any(expected_hists(narrowed, X, bins, k)[f][0] != expected_hists(ref, X, bins, k)[f][0] for f in range(k)):
+                RUN["of_these_with_truncation_changing_a_histogram"] += 1
         RUN["updates"] += 1; RUN["proxy_batches"] += 1 if proxy else 0
         where = f"step {step}{' (proxy batch)' if proxy else ''}"
         if len(cobs) != k:
@@ -516,8 +565,16 @@ def direct_check(case, obs):
             ds = "drift"
             ref = X; segs = [[xi[0], xi[1], xi[2]]]
             lam = total
+            ref_dt = xdt; narrowed = None
         else:
             prev = c; prev_fd = fds
+            wide = np.result_type(ref_dt, xdt)
+            if wide != ref_dt or narrowed is not None:
+                RUN["appends_of_a_wider_dtype_than_the_reference"] += 1 if wide != ref_dt else 0
+                if narrowed is None:
+                    narrowed, narrow_dt = ref, ref_dt
+                narrowed = np.concatenate((narrowed, X.astype(narrow_dt).astype(float)))
+            ref_dt = wide
             ref = np.concatenate((ref, X)); segs = segs + [[xi[0], xi[1], xi[2]]]
             ref_n = len(ref); bins = math.isqrt(ref_n)
         return []
@@ -553,6 +610,7 @@ def direct_check(case, obs):
             ci = 0
             if kind == 1:
                 ref = X; segs = [[bi, 0, len(X)]]; lam = total
+                ref_dt = held_dtype(dtype_of(case, bi)); narrowed = None
                 pr = reset(step, row)
             else:
                 pr = reset(step, row) if ds == "drift" else None
@@ -791,6 +849,8 @@ def shrink_candidates(case):
         yield dict(case, side=[])
     if case.get("container") == "df":
         yield dict(case, container="array")
+    if case.get("dtypes"):
+        yield {k_: v for k_, v in case.items() if k_ != "dtypes"}          # everything held as doubles
     # halve batches
     for bi, b in enumerate(case["batches"]):
         if len(b) > 6:
@@ -908,6 +968,110 @@ def gen_one(ctx, idx):
             "container": "df" if rng.random() < 0.25 else "array", "side": side, "kind": kind}
 
 
+MIXED = ("int64>f64", "int32>f64", "f32>f64", "int64>any", "int32>int64>f64", "f64>narrow", "percol>f64", "same-int")
+TINY = 2.0 ** -30
+
+
+def mixed_rows(rng, dt, n, k, lo, hi, off):
+    """n rows of values in [lo + off, hi + off], every one exactly representable in dtype dt.  Doubles are whole numbers,
+    halves, generic fractions and whole numbers moved by a relative 2^-30 (below / above): kept as they are they fall into
+    another histogram bin than after truncation to an integer or rounding to single precision"""
+    rows = []
+    for _ in range(n):
+        r = []
+        for _ in range(k):
+            u = rng.random()
+            if dt in ("int64", "int32"):
+                v = float(rng.randint(lo, hi) + off)
+            elif dt == "float32":
+                g = rng.randint(lo, hi - 1) + off
+                v = g + (0.0 if u < 0.3 else rng.choice([0.25, 0.5, 0.75]) if u < 0.6 else rng.random())
+                v = float(np.float32(v))
+            elif u < 0.25:
+                v = rng.randint(lo, hi - 1) + off + rng.random()
+            elif u < 0.45:
+                v = rng.randint(lo, hi - 1) + off + 0.5
+            elif u < 0.65:
+                g = float(rng.randint(lo + 1, hi) + off)
+                v = g - TINY * max(1.0, abs(g))
+            elif u < 0.8:
+                g = float(rng.randint(lo, hi - 1) + off)
+                v = g + TINY * max(1.0, abs(g))
+            else:
+                v = float(rng.randint(lo, hi) + off)
+            r.append(float(v) + 0.0)
+        rows.append(r)
+    return rows
+
+
+def gen_mixed(ctx, idx):
+    """reference and test batches held in different numeric dtypes (the pooled reference of the unchanged code is the
+    concatenation upcast to the common type, i.e. the caller's values as doubles).  pattern x detect_batch x detector are
+    enumerated by idx, the rest is drawn.  Single precision is only used where the code still computes in doubles: never for
+    both operands of a histogram (not on consecutive calls, not for a reference that detect_batch=1 splits into reference and
+    proxy batch) - np.histogram on two float32 operands builds float32 edges, which is outside the model's arithmetic"""
+    rng = ctx.rng
+    pat = MIXED[idx % len(MIXED)]
+    db = 1 + (idx // len(MIXED)) % 3
+    det = "HDDDM" if (idx // (3 * len(MIXED))) % 2 == 0 else "CDBD"
+    k = rng.choice([1, 2, 2, 3]) if det == "HDDDM" else 1
+    cont = "df" if (pat == "percol>f64" or rng.random() < 0.5) else "array"
+    stat = "stdev" if rng.random() < 0.7 else "tstat"
+    params = {"detect_batch": db, "divergence": "H" if det == "HDDDM" else "KL", "statistic": stat,
+              "significance": rng.choice([0.01, 0.05]) if stat == "tstat" else rng.choice([2.0, 3.0, 50.0]),
+              "subsets": rng.choice([2, 3, 5])}
+    nb = rng.randint(6, 9)
+    f32 = "float32" if db != 1 else "int32"
+    anyd = ["int64", "int32", "float64", "float64", f32]
+    if pat == "int64>f64":
+        dts = ["int64"] + ["float64"] * (nb - 1)
+    elif pat == "int32>f64":
+        dts = ["int32"] + ["float64"] * (nb - 1)
+    elif pat == "f32>f64":
+        dts = [f32] + ["float64"] * (nb - 1)
+    elif pat == "int64>any":
+        dts = ["int64"] + [rng.choice(anyd) for _ in range(nb - 1)]
+    elif pat == "int32>int64>f64":
+        dts = ["int32", "int64"] + [rng.choice(["int64", "float64", "float64"]) for _ in range(nb - 2)]
+    elif pat == "f64>narrow":
+        dts = ["float64"] + [rng.choice(["int64", "int32", f32, "float64"]) for _ in range(nb - 1)]
+    elif pat == "percol>f64":
+        k = max(k, 2) if det == "HDDDM" else 1
+        dts = [[rng.choice(["int64", "int32", f32]) for _ in range(k)]] + ["float64"] * (nb - 1)
+    else:
+        d = rng.choice(["int64", "int32"])
+        dts = [d] * nb
+    ops = [[1, 0]] + [[0, i] for i in range(1, nb)]
+    if rng.random() < 0.3:
+        j = rng.randint(3, nb - 2)
+        ops[j] = [1, j]                          # a mid-run set_reference in a narrow dtype: a second epoch of the same kind
+        dts[j] = rng.choice(["int64", "int32", f32])
+        dts[j + 1] = "float64"
+    single = lambda d: d == "float32" or (isinstance(d, list) and all(x == "float32" for x in d))
+    for i in range(1, nb):
+        if single(dts[i]) and single(dts[i - 1]):
+            dts[i] = "float64"
+    span = rng.choice([8, 12, 16, 24])
+    lo = rng.choice([0, 0, -span // 2, 3])
+    hi = lo + span
+    shift_at = rng.randint(4, nb) if rng.random() < 0.6 else nb      # a level shift late in the run (or none)
+    batches = []
+    for b in range(nb):
+        n = rng.randint(16, 64) if ops[b][0] == 1 else rng.randint(8, 50)
+        off = rng.choice([span // 2, span]) if b >= shift_at else 0
+        if isinstance(dts[b], list):
+            cols = [mixed_rows(rng, d, n, 1, lo, hi, off) for d in dts[b]]
+            rows = [[c[i][0] for c in cols] for i in range(n)]
+        else:
+            rows = mixed_rows(rng, dts[b], n, k, lo, hi, off)
+        if ops[b][0] == 1 and rng.random() < 0.7:
+            rows[0] = [float(lo + off)] * k          # both ends present: whole-number edges whenever the bin count divides the span
+            rows[-1] = [float(hi + off)] * k
+        batches.append(rows)
+    return {"det": det, "params": params, "k": k, "batches": batches, "dtypes": dts, "ops": ops, "seed": 5000 + idx,
+            "container": cont, "side": [], "kind": "dtypes:" + pat}
+
+
 def two_pass(case):
     """stdev mode: set significance to (epsilon - mean) / deviation of some step of a first run, aiming at beta == epsilon"""
     obs = run_impl(case)
@@ -944,11 +1108,17 @@ def gen_cases(ctx):
     st = ctx.stats
     hc = gen_hist_cases(ctx)
     st["np_histogram_only_cases"] = len(hc)
+    # drawn after everything else: the cases above are the same as before for a given seed
+    cases += [gen_mixed(ctx, i) for i in range(ctx.scale(48, 480))]
     for c in cases:
         for key in (c["det"], "db=%d" % c["params"]["detect_batch"], c["params"]["statistic"], "div=" + c["params"]["divergence"],
                     "k=%d" % c["k"], "kind=" + c["kind"], c["container"]):
             st[key] = st.get(key, 0) + 1
         st["mid_set_reference"] = st.get("mid_set_reference", 0) + (1 if any(o[0] == 1 for o in c["ops"][1:]) else 0)
+        if c.get("dtypes"):
+            st["mixed_dtype_cases"] = st.get("mixed_dtype_cases", 0) + 1
+            for d in {str(held_dtype(x)) for x in c["dtypes"]}:
+                st["cases_with_" + d] = st.get("cases_with_" + d, 0) + 1
     st["rows_min"] = min(len(b) for c in cases for b in c["batches"])
     st["rows_max"] = max(len(b) for c in cases for b in c["batches"])
     return cases + hc
